@@ -72,6 +72,7 @@ def check_last_getters(res, n):
     import digital_rf  # noqa
     rng = res.rng
     work = common.scratch_dir()
+    earlier = None          # (writer, last file, last dir, history): a writer closed before the current one
     for i in range(n):
         cfg = wl.gen_cfg(rng)
         ops = wl.gen_ops(rng, cfg, rng.randrange(1, 5), blocks=True, close=False)
@@ -102,6 +103,14 @@ def check_last_getters(res, n):
                 res.violation("last-file-wrong", "get_last_file_written / get_last_dir_written do not name the file of the most recent sample (%s)" % phase,
                               hist, [wantf, os.path.join(chdir, sub)], [lf, ld])
         res.count("last_getters")
+        # what a closed writer reports stays what it is when other writers are closed after it
+        if earlier is not None:
+            w0, lf0, ld0, hist0 = earlier
+            now = (w0.get_last_file_written(), w0.get_last_dir_written())
+            if now != (lf0, ld0):
+                res.violation("last-file-changes-after-another-close", "get_last_file_written / get_last_dir_written of a closed "
+                              "writer changed when another writer was closed", dict(hist0, then_closed=hist), [lf0, ld0], list(now))
+        earlier = (w, w.get_last_file_written(), w.get_last_dir_written(), hist)
 
 
 def replay(res, rp):
